@@ -60,6 +60,20 @@ func (db *DB) resolveByteOffset(
 	return db.resolver.byteOffset(ctx, iter, sampleOffset)
 }
 
+// resolveSampleCount returns the number of samples in the domain starting at
+// domainStart.
+func (db *DB) resolveSampleCount(
+	ctx context.Context,
+	domainStart telem.TimeStamp,
+) (n int64, err error) {
+	iter := db.domain.OpenIterator(domain.IterRange(domainStart.SpanRange(telem.TimeSpanMax)))
+	defer func() { err = errors.Combine(err, iter.Close()) }()
+	if !iter.SeekGE(ctx, domainStart) {
+		return 0, errors.Newf("cannot find domain starting at %s", domainStart)
+	}
+	return db.resolver.domainSampleCount(ctx, iter)
+}
+
 func (db *DB) lockControllerForNonWriteOp(tr telem.TimeRange, opName string) (release func(), err error) {
 	g, _, err := db.controller.OpenGate(control.GateConfig[*controlledWriter]{
 		ErrIfControlled: new(true),
@@ -119,10 +133,9 @@ func (db *DB) delete(ctx context.Context, tr telem.TimeRange) error {
 //     case, we would use the lower distance approximation instead. For example:
 //     if the index is 11 13 15 17 19, but the domain starts at 9 * Second + 1,
 //     the start of the domain is inexact. With a target of 17, we would use the
-//     lower offset 3 as the delete offset, and use the upper timestamp approximation
-//     of the previous offset (the last sample that is kept), i.e. 15 * Second + 1.
-//     If the target is the first sample of the domain, nothing is kept and the
-//     timestamp is not snapped.
+//     lower offset 3 as the delete offset. The target is an exact sample, so, as in
+//     case 1, the timestamp is not snapped: 17 * Second is the end of the previous
+//     domain.
 //
 //   - Case 4: Start of domain is inexact, target is inexact
 //     Again use the example of 11 13 15 17 19 with the domain starting at
@@ -180,29 +193,11 @@ func (db *DB) calculateStartOffset(
 			ts = approxStamp.Upper + 1
 		} else if !approxDist.StartExact {
 			// If start is inexact, we must use the lower approximation. (Note that the
-			// start is only inexact because of domain cutoff).
+			// start is only inexact because of domain cutoff). The target is an exact
+			// sample, so, as in case 1, it is kept as the end of the previous domain:
+			// every channel sharing the index must cut at the same timestamp, whether
+			// or not its own domain starts on a sample.
 			sampleOffset = approxDist.Lower
-			// The target is the first sample of the domain: nothing before it is kept,
-			// so there is no previous sample to snap to.
-			if sampleOffset == 0 {
-				byteOff, err := db.resolveByteOffset(ctx, domainStart, sampleOffset)
-				if err != nil {
-					return 0, 0, err
-				}
-				return byteOff, ts, nil
-			}
-			approxStamp, err = db.index().Stamp(
-				ctx,
-				domainStart,
-				sampleOffset-1,
-				index.MustBeContinuous,
-			)
-			if err != nil {
-				return 0, 0, err
-			}
-			// The start is inexact, so the stamp is resolved as if the domain started at
-			// its first sample: the upper bound is the last sample that is kept.
-			ts = approxStamp.Upper + 1
 		} else {
 			approxStamp, err = db.index().Stamp(
 				ctx,
@@ -254,8 +249,19 @@ func (db *DB) calculateEndOffset(
 			// If both start and end are inexact, sampleOffset is in between the two. (Note
 			// that the start is only inexact because of domain cutoff).
 			sampleOffset = (approxDist.Lower + approxDist.Upper) / 2
-			// We stamp to sampleOffset - 1 here since if we are approximating the start sampleOffset,
-			// we want to stamp the last written sample.
+		} else if !approxDist.StartExact {
+			// If start is inexact, we must use the lower approximation. (Note that the
+			// start is only inexact because of domain cutoff).
+			sampleOffset = approxDist.Lower
+		}
+		total, err := db.resolveSampleCount(ctx, domainStart)
+		if err != nil {
+			return 0, 0, err
+		}
+		// Snap to the first sample that is kept. If every sample of the domain comes
+		// before the target, nothing is kept and there is no sample to snap to (the
+		// index may hold no further sample either).
+		if sampleOffset < total {
 			if approxStamp, err = db.index().Stamp(
 				ctx,
 				domainStart,
@@ -264,34 +270,9 @@ func (db *DB) calculateEndOffset(
 			); err != nil {
 				return 0, 0, err
 			}
-			// The upper bound is the first sample at or after the target, i.e. the first
-			// sample that is kept.
+			// The upper bound is the first sample at or after the target (it equals the
+			// lower bound when the start is exact).
 			ts = approxStamp.Upper
-		} else if !approxDist.StartExact {
-			// If start is inexact, we must use the lower approximation. (Note that the
-			// start is only inexact because of domain cutoff).
-			sampleOffset = approxDist.Lower
-			approxStamp, err = db.index().Stamp(
-				ctx,
-				domainStart,
-				sampleOffset,
-				index.MustBeContinuous,
-			)
-			if err != nil {
-				return 0, 0, err
-			}
-			ts = approxStamp.Upper
-		} else {
-			approxStamp, err = db.index().Stamp(
-				ctx,
-				domainStart,
-				sampleOffset,
-				index.MustBeContinuous,
-			)
-			if err != nil {
-				return 0, 0, err
-			}
-			ts = approxStamp.Lower
 		}
 	}
 	byteOff, err := db.resolveByteOffset(ctx, domainStart, sampleOffset)
